@@ -35,7 +35,7 @@ AttrOps == {O(".", VStr(a)) : a \in {"n", "z", "s", "l", "d", "t", "echo", "firs
 TL == TArg(<<O(".", VStr("l"))>>)            \* T.l    (a list on the object: unhashable as an index)
 ItemArgs == {Lit(VInt(0)), Lit(VInt(-1)), Lit(VInt(5)), Lit(VStr("k")), Lit(VStr("x")), TN, TZ, TL,
              [a |-> "list", items |-> <<Lit(VStr("k"))>>],
-             SliceArg(VInt(0), VInt(1), VNone), SliceArg(VNone, VNone, VInt(-1))} \cup
+             SliceArg(VInt(0), VInt(1), VNone), SliceArg(VNone, VNone, VInt(-1)), SliceArg(VNone, VInt(0), VNone)} \cup
             (IF Level >= 2 THEN {Lit(VStr("o")), Lit(VNone), TK, SN, SliceArg(VInt(1), VNone, VNone),
                            SliceArg(VInt(-1), VInt(0), VInt(-1)), SliceArg(VNone, VInt(5), VInt(2)),
                            SliceArg(VNone, VNone, VInt(0))} ELSE {})
@@ -52,12 +52,14 @@ CallOps == {O("(", [args |-> <<>>, kwargs |-> NoKw]),
                           O("(", [args |-> <<Lit(VFn("seven")), Lit(VRef(1))>>, kwargs |-> NoKw])} ELSE {})
 BinOps == {"+", "-", "*", "/", "#", "%", ":", "&", "|", "^"}
 \* 1 and 1.0 are equal but different literals (int vs float): both must be replayed faithfully
-BinArgs == {Lit(VInt(2)), Lit(VInt(0)), TN, Lit(VStr("s")), Lit(VInt(1)), Lit(VFrac(1, 1))} \cup
+BinArgs == {Lit(VInt(2)), Lit(VInt(0)), TN, Lit(VStr("s")), Lit(VInt(1)), Lit(VFrac(1, 1)),
+            [a |-> "list", items |-> <<Lit(VInt(9))>>]} \cup
            (IF Level >= 2 THEN {Lit(VInt(-2)), Lit(VInt(3)), TZ, [a |-> "list", items |-> <<Lit(VInt(9))>>], Lit(VNone)} ELSE {})
 ArithOps == {O(b, a) : b \in BinOps, a \in BinArgs} \cup {O("~", VNone), O("_", VNone)}
 TinyAttr == {O(".", VStr(a)) : a \in {"n", "l", "d", "echo", "boom", "x", "none"}}
-TinyItem == {O("[", a) : a \in {Lit(VInt(0)), Lit(VStr("k")), TN, TL, SliceArg(VNone, VNone, VInt(-1))}}
-TinyArith == {O(b, a) : b \in {"+", "*", "#", "%", ":", "&"}, a \in {Lit(VInt(2)), Lit(VInt(0)), Lit(VFrac(1, 1)), TN}} \cup {O("~", VNone)}
+TinyItem == {O("[", a) : a \in {Lit(VInt(0)), Lit(VStr("k")), TN, TL, SliceArg(VNone, VNone, VInt(-1)), SliceArg(VNone, VInt(0), VNone)}}
+TinyArith == {O(b, a) : b \in {"+", "*", "#", "%", ":", "&"},
+                        a \in {Lit(VInt(2)), Lit(VInt(0)), Lit(VFrac(1, 1)), TN, [a |-> "list", items |-> <<Lit(VInt(9))>>]}} \cup {O("~", VNone)}
 Alphabet == IF Level = 0 THEN TinyAttr \cup TinyItem \cup CallOps \cup TinyArith
             ELSE AttrOps \cup ItemOps \cup CallOps \cup ArithOps
 \* what may be recorded after the first failure (kept small: the outcome must not change)
